@@ -39,7 +39,8 @@ Record tables := mkT {
   t_sigs : list (Z * bytes * bytes);         (* (key, data, signature) triples that verify *)
   t_now : Z;
   t_pw_sup : bool; t_kbd : tri; t_pk_sup : bool;
-  t_async : bool * bool * bool * bool * bool  (* begin, pw, key, ca, kbd *)
+  t_async : bool * bool * bool * bool * bool;  (* begin, pw, key, ca, kbd *)
+  t_noinstall : list user                     (* users for which begin_auth leaves the authorized keys alone *)
 }.
 
 Definition ouser_eqb (a b : option user) : bool := option_eqb zlist_eqb a b.
@@ -66,7 +67,8 @@ Definition world_of (t : tables) : world :=
     (fun u k => existsb (fun e => zlist_eqb (fst e) u && (snd e =? k)) (t_cbca t))
     (fun b => match assoc zlist_eqb b (t_blobs t) with Some r => r | None => BBad end)
     (fun k d sg => existsb (fun e => (fst (fst e) =? k) && zlist_eqb (snd (fst e)) d && zlist_eqb (snd e) sg) (t_sigs t))
-    (t_now t) (t_pw_sup t) (t_kbd t) (t_pk_sup t) ab apw akey aca akbd.
+    (t_now t) (t_pw_sup t) (t_kbd t) (t_pk_sup t) ab apw akey aca akbd
+    (fun u => negb (existsb (zlist_eqb u) (t_noinstall t))).
 
 (* ---- operations and observations ------------------------------------------------------------------ *)
 Inductive cop := ODeliver (p : bytes) | OComplete (fid : Z) | OSettle | OTurn.
@@ -138,19 +140,31 @@ Definition count_served (t : Z) (l : list reply) : Z :=
 (* final observation: authentication replies oldest first; served global requests / channel opens;
    user reported at each auth_completed(); begin_auth calls; dead; enforced restrictions when probed
    (forced command, pty allowed, direct-tcpip to the probe target allowed) *)
-Definition obs := (list reply * Z * Z * list user * list user * bool * option (option bytes * bool * bool))%type.
+Definition obs := (list reply * Z * Z * list user * list user * bool * option (option bytes * bool * bool * list start_req))%type.
 
 Definition probe_host : bytes := [104; 49].     (* "h1" *)
 Definition probe_port : Z := 80.
 
+(* what the four probe channels ask for: exec "probe", shell, subsystem "other", subsystem "sftp" *)
+Definition probe_starts : list start_req :=
+  [SExec [112;114;111;98;101]; SShell; SSubsys [111;116;104;101;114]; SSubsys [115;102;116;112]].
+
 Definition observe (s : st) (probe : bool) : obs :=
   (rev (filter (fun r => negb (is_served r)) (out s)), count_served 80 (out s), count_served 90 (out s),
    rev (completed_as s), rev (begun s), dead s,
-   if probe then Some (forced_command s, pty_allowed s, fwd_allowed s probe_host probe_port) else None).
+   if probe then Some (forced_command s, pty_allowed s, fwd_allowed s probe_host probe_port,
+                       map (start_session s) probe_starts) else None).
 
-Definition enf_eqb (a b : option bytes * bool * bool) : bool :=
-  let '(a1, a2, a3) := a in let '(b1, b2, b3) := b in
-  option_eqb zlist_eqb a1 b1 && Bool.eqb a2 b2 && Bool.eqb a3 b3.
+Definition start_eqb (a b : start_req) : bool :=
+  match a, b with
+  | SShell, SShell => true
+  | SExec x, SExec y => zlist_eqb x y
+  | SSubsys x, SSubsys y => zlist_eqb x y
+  | _, _ => false
+  end.
+Definition enf_eqb (a b : option bytes * bool * bool * list start_req) : bool :=
+  let '(a1, a2, a3, a4) := a in let '(b1, b2, b3, b4) := b in
+  option_eqb zlist_eqb a1 b1 && Bool.eqb a2 b2 && Bool.eqb a3 b3 && list_eqb start_eqb a4 b4.
 
 Fixpoint uprefix (a b : list user) : bool :=
   match a, b with
